@@ -79,6 +79,11 @@ class Exec:
         self.sent = 0
         self.disconnected = False
         self.closed_by_end = False
+        self.nsteps = 0
+        self.aligned = False
+        self.step_budget = 6000
+        self.conn.tr.write_budget = 256 * 1024
+        self.script.entry_budget = 400
         self._model_head: Optional[str] = None
         self.segs: List[str] = []
         self.params = {"mode": mode, "eager": eager, "rb": read_bufsize, "capset": cap,
@@ -94,7 +99,7 @@ class Exec:
         return {"w": c["w"], "d": c["d"], "closed": c["closed"], "lost": c["lost"], "paused": c["paused"],
                 "idle": self.it.idle(), "hrun": len(self.script.running),
                 "hin": len(self.script.entered), "hin0": self.script.unknown, "esc": nesc,
-                "wp": bool(self.conn.tr.write_paused)}
+                "wp": bool(self.conn.tr.write_paused), "bud": bool(self.conn.runaway), "pop": self.conn.popped}
 
     def rec(self, ev: str, n: int = 0, a: str = "") -> None:
         sub = self.conn.take_sub()
@@ -145,8 +150,19 @@ class Exec:
         self.rec("wresume")
 
     def step(self) -> bool:
+        if self.nsteps >= self.step_budget:
+            if not self.conn.runaway:
+                self.conn.runaway = "step-budget"     # does not quiesce: recorded, judged as RunawayExecution
+                self.script.cancel_all()
+                if not self.conn.tr.closed:
+                    self.conn.tr.drop(None)
+            if self.nsteps >= self.step_budget + 2000:
+                self.loop._ready.clear()
+                self.it.remaining = 0
+                return False
         ok = self.it.step()
         if ok:
+            self.nsteps += 1
             self.rec("step")
         return ok
 
@@ -157,7 +173,7 @@ class Exec:
                 break
             n += 1
             if n > limit:
-                raise MachineryError("execution does not quiesce (livelock in the harness?)")
+                break
 
     def tick(self) -> bool:
         if not self.it.idle():
@@ -190,6 +206,7 @@ class Exec:
         o["lost"] = True
         o["hrun"] = 0
         o["idle"] = True
+        o["bud"] = bool(self.conn.runaway)
         self.events.append({"ev": "teardown", "n": 0, "a": "", "sub": [], "o": o, "p": {}})
 
     def trace(self, src: str, extra_cfg: Optional[dict] = None) -> dict:
@@ -200,12 +217,15 @@ class Exec:
         for r in resps:
             # handler running when the first byte of this response was written (0 = none)
             att = 0
-            for off, tag in marks:
+            dat = 0
+            for off, tag, deliv in marks:
                 if off <= r["start"]:
                     att = tag if isinstance(tag, int) else 0
+                    dat = deliv
                 else:
                     break
             r["att"] = att
+            r["dat"] = dat          # bytes handed to data_received when the first byte was written
         if resps and resps[-1]["fr"] == "close" and not resps[-1]["garbage"] and self.closed_by_end:
             resps[-1]["complete"] = True      # close-delimited body, and the server did close
         qlim = 0
@@ -213,7 +233,15 @@ class Exec:
             if itx["k"] != "req" or itx.get("special") or itx["term"]:
                 break
             qlim = itx["end"]
-        cfg = {"cap": self.cap, "slack": 0 if self.eager else 1, "items": self.items, "qlim": qlim,
+        alim = 0
+        if self.aligned:                     # every segment held whole items / single pieces: each complete
+            alim = self.items[-1]["end"] if self.items else 0      # non-junk item is one queue entry
+            for itx in self.items:
+                if itx["k"] == "junk" or itx.get("special"):
+                    alim = itx["start"]
+                    break
+        cfg = {"cap": self.cap, "slack": 0 if self.eager else 1, "items": self.items, "qlim": qlim, "alim": alim,
+               "runaway": self.conn.runaway,
                "resps": resps, "escs": self.escs, "wlen": len(wire), "mode": self.mode,
                "eager": self.eager, "params": self.params, "segs": self.segs,
                "plan_full": {str(k): v for k, v in self.script.plan.items()}}
@@ -246,21 +274,30 @@ def wchoice(rng: random.Random, table: List[Tuple[Any, int]]) -> Any:
     return table[-1][0]
 
 
-def gen_stream(rng: random.Random, cap: int, hostile: float) -> Tuple[List[dict], List[List[bytes]], Dict[int, dict]]:
-    """A pipeline: items (ground truth), their byte pieces, and the handler plan."""
+def gen_stream(rng: random.Random, cap: int, hostile: float, flood: bool = False
+               ) -> Tuple[List[dict], List[List[bytes]], Dict[int, dict]]:
+    """A pipeline: items (ground truth), their byte pieces, and the handler plan.
+    flood: one busy handler, then malformed members (and a few requests) that keep arriving."""
     resume = cap // 2
     depth = wchoice(rng, [(rng.randint(1, 6), 30), (cap - 1, 6), (cap, 8), (cap + 1, 8), (cap + 2, 5),
                           (min(40, cap + 8), 8), (resume, 4), (resume + 1, 4), (rng.randint(1, 40), 27)])
     depth = max(1, min(40, depth))
+    if flood:
+        depth = rng.choice([cap + 2, cap + 4, 40, 40, rng.randint(cap - 2, 40)])
     items: List[dict] = []
     pieces: List[List[bytes]] = []
     plan: Dict[int, dict] = {}
     busy_first = rng.random() < 0.6       # keep the first handler busy so that the queue fills
     for i in range(1, depth + 1):
         x = rng.random()
-        if x < hostile:
+        if flood:
+            kind = "req" if i == 1 or rng.random() < 0.15 else wchoice(
+                rng, [("bad", 70), ("orphan", 15), ("poisonP", 8), ("poisonF", 7)])
+        elif x < hostile:
             kind = wchoice(rng, [("bad", 40), ("poisonP", 12), ("poisonF", 12), ("junk", 10), ("connect", 8),
                                  ("upgrade", 10), ("orphan", 8)])
+        elif rng.random() < 0.07:
+            kind = "upgrade"           # ordinary traffic too: the scripted handlers always decline
         else:
             kind = "req"
         if kind == "bad":
@@ -270,7 +307,7 @@ def gen_stream(rng: random.Random, cap: int, hostile: float) -> Tuple[List[dict]
             p = [srvkit.UNIT]
             add_item(items, p, "bad", i, True)
         elif kind == "junk":
-            p = [srvkit.JUNK]
+            p = [srvkit.JUNK if rng.random() < 0.6 else srvkit.JUNK_LF]
             add_item(items, p, "junk", i, False)
         elif kind == "poisonP":
             p = srvkit.render_request(i, target=srvkit.POISON_PARSE)
@@ -282,7 +319,8 @@ def gen_stream(rng: random.Random, cap: int, hostile: float) -> Tuple[List[dict]
             p = srvkit.render_request(i, method="CONNECT", target="t:80")
             add_item(items, p, "req", i, True, "connect")
         elif kind == "upgrade":
-            p = srvkit.render_request(i, upgrade=True)
+            ubody = wchoice(rng, [(0, 45), (1, 35), (2, 20)])
+            p = srvkit.render_request(i, upgrade=True, body=ubody, chunked=ubody > 0 and rng.random() < 0.4)
             add_item(items, p, "req", i, False, "upgrade")
         else:
             body = wchoice(rng, [(0, 70), (1, 12), (2, 10), (3, 8)])
@@ -303,6 +341,8 @@ def gen_stream(rng: random.Random, cap: int, hostile: float) -> Tuple[List[dict]
         beh = wchoice(rng, BEHS_B)
         if i == 1 and busy_first and kind == "req":
             beh = rng.choice(["gate", "gate", "never", "sleep", "stream"])
+        if flood:
+            beh = rng.choice(["gate", "gate", "never"]) if i == 1 else wchoice(rng, [("ret0", 80), ("gate", 10), ("read", 10)])
         if kind == "req" and b" HTTP/1.0\r\n" in p[0] and beh in ("stream", "streamself", "partial"):
             beh = "gate"       # unsized StreamResponse to HTTP/1.0 + keep-alive is C02's subject (close-delimited)
         plan[i] = {"beh": beh, "t": float(rng.choice([1, 3, 12, 40]))}
@@ -316,9 +356,9 @@ def gen_stream(rng: random.Random, cap: int, hostile: float) -> Tuple[List[dict]
     return items, pieces, plan
 
 
-def cut_stream(rng: random.Random, pieces: List[List[bytes]]) -> List[bytes]:
+def cut_stream(rng: random.Random, pieces: List[List[bytes]], mode: Optional[str] = None) -> List[bytes]:
     data = b"".join(b"".join(p) for p in pieces)
-    mode = wchoice(rng, [("one", 25), ("items", 20), ("pieces", 15), ("random", 30), ("groups", 10)])
+    mode = mode or wchoice(rng, [("one", 25), ("items", 20), ("pieces", 15), ("random", 30), ("groups", 10)])
     if mode == "one":
         return [data]
     if mode == "items":
@@ -348,12 +388,16 @@ def random_exec(ctx: Ctx, loop: steploop.StepLoop, rng: random.Random) -> dict:
     eager = rng.random() < 0.85
     hostile = rng.choice([0.0, 0.0, 0.03, 0.08, 0.2])
     rb = rng.choice([None, None, None, 4, 16])
+    flood = rng.random() < 0.12
     x = Exec(loop, mode=mode, eager=eager, read_bufsize=rb)
-    items, pieces, plan = gen_stream(rng, cap, hostile)
+    items, pieces, plan = gen_stream(rng, cap, hostile, flood)
     x.items = items
     x.script.plan = plan
-    segs = cut_stream(rng, pieces)
-    disc_at = rng.randint(0, len(segs) + 6) if rng.random() < 0.25 else -1
+    cmode = rng.choice(["items", "pieces"]) if flood else wchoice(
+        rng, [("one", 22), ("items", 22), ("pieces", 18), ("random", 28), ("groups", 10)])
+    segs = cut_stream(rng, pieces, cmode)
+    x.aligned = cmode in ("items", "pieces")
+    disc_at = rng.randint(0, len(segs) + 6) if rng.random() < (0.0 if flood else 0.25) else -1
     disc_how = rng.choice(["drop", "reset", "eof"])
     nact = 0
     k = 0
@@ -366,7 +410,7 @@ def random_exec(ctx: Ctx, loop: steploop.StepLoop, rng: random.Random) -> dict:
         if not x.it.idle() or not x.it.at_boundary():
             acts += [("step", 0)] * 4
         gated = [rid for rid in x.script.running if x.script.waiting_gate(rid)]
-        if gated:
+        if gated and not (flood and k < len(segs) and gated[0] == 1):
             acts += [("go", gated[0])] * (1 if k < len(segs) else 3)
         if x.it.idle() and x.loop.next_timer() is not None and (k >= len(segs) or rng.random() < 0.1) and not gated:
             acts.append(("tick", 0))
@@ -398,7 +442,8 @@ def random_exec(ctx: Ctx, loop: steploop.StepLoop, rng: random.Random) -> dict:
             x.wresume()
             wp = False
     x.finish()
-    return x.trace("random", {"plan": {str(i): p["beh"] for i, p in plan.items()}, "nseg": len(segs)})
+    return x.trace("random", {"plan": {str(i): p["beh"] for i, p in plan.items()}, "nseg": len(segs),
+                              "cut": cmode, "flood": flood})
 
 
 # ---------------------------------------------------------------- driver A: TLC behaviours -> real code
@@ -421,7 +466,8 @@ def item_pieces(k: int, it: dict) -> Tuple[List[bytes], str, bool, str]:
     if kind == "connect":
         return srvkit.render_request(k, method="CONNECT", target="t:80"), "req", True, "connect"
     if kind == "upgrade":
-        return srvkit.render_request(k, upgrade=True), "req", False, "upgrade"
+        return (srvkit.render_request(k, upgrade=True, body=it["body"], chunked=bool(it["chunked"])),
+                "req", False, "upgrade")
     return (srvkit.render_request(k, body=it["body"], chunked=bool(it["chunked"]), close=close),
             "req", close, "")
 
@@ -612,6 +658,7 @@ CONSTANTS
   MapPoisonP = {mp}
   GuardFactory = {gf}
   PoisonFAtParser = {pfp}
+  LateUpgradeReset = {lur}
   ResumeOnPop = {rop}
   KA = 3
   LG = 1
@@ -622,8 +669,10 @@ ALL_INVS = ["TypeOK", "InOrderOnce", "QueueBound", "BadGets4xxAndClose", "NoOrph
             "PauseCoherent", "NoStrandedTail"]
 
 
-AS_CODED_INVS = [i for i in ALL_INVS if i not in ("NoEscape", "NoOrphan", "BadGets4xxAndClose")] + [
-    "NoOrphanAsCoded", "BadGetsAsCoded"]
+AS_CODED_INVS = ["TypeOK", "InOrderOnce", "QueueBound", "NoOrphanAsCoded", "BadGetsAsCoded",
+                 "PauseCoherentAsCoded", "NoStrandedTailAsCoded"]
+IDEAL = {"mp": True, "gf": True, "pfp": False, "lur": True}
+AS_FOUND = {"mp": False, "gf": False, "pfp": False, "lur": False}     # the snapshot the check was built on
 
 
 def tla_bool(b: bool) -> str:
@@ -634,12 +683,13 @@ def write_cfg(alpha: str, beh: str, n: int, *, hw: int = 99, timers: bool = Fals
               ideal: bool = True, rop: bool = True, cap: int = 2, invs: Optional[List[str]] = None,
               view: bool = True, design: Optional[dict] = None) -> Tuple[str, dict]:
     """ideal=True: the intended design; ideal=False: `design` (or the code as found) = what probe_code() saw."""
-    dz = {"mp": True, "gf": True, "pfp": False} if ideal else (design or {"mp": False, "gf": False, "pfp": False})
+    dz = dict(IDEAL) if ideal else dict(design or AS_FOUND)
+    dz.setdefault("lur", True)
     d = mktemp("c05cfg")
     p = os.path.join(d, f"ServerConn_{alpha}_{beh}_{n}.cfg")
     txt = MODEL_CFG.format(alpha=alpha, beh=beh, n=n, cap=cap, resume=cap // 2, hw=hw, timers=tla_bool(timers),
                            disc=disc, wp=wp, mp=tla_bool(dz["mp"]), gf=tla_bool(dz["gf"]), pfp=tla_bool(dz["pfp"]),
-                           rop=tla_bool(rop),
+                           lur=tla_bool(dz["lur"]), rop=tla_bool(rop),
                            invs="".join(f"INVARIANT {i}\n" for i in (ALL_INVS if invs is None else invs)))
     if not view:
         txt = txt.replace("VIEW View\n", "")
@@ -656,18 +706,29 @@ DEVIATIONS = {
     "NoOrphan_PoisonTarget": "request-target accepted by the parser whose URL makes BaseRequest.__init__ raise "
                              "(e.g. 'http://a:b/'): start() dies outside its try, request never answered, connection left open",
     "StartCrash_PoisonTarget": "start() task died with ValueError from the request factory (Task exception was never retrieved)",
+    "NoOrphan_UpgradeBodyAfterResponse": "upgrade request with a body answered (declined) before its body was complete: the deferred "
+                                         "upgrade takes effect afterwards and nobody switches the parser back; later requests are "
+                                         "buffered in _message_tail and never answered, connection left open",
 }
 
 
 def slim(t: dict) -> dict:
     """What TLC needs: observations only (no private projection, no sub-event strings)."""
     c = t["cfg"]
-    cfg = {"cap": c["cap"], "slack": c["slack"], "qlim": c["qlim"], "wlen": c["wlen"],
+    cfg = {"cap": c["cap"], "slack": c["slack"], "qlim": c["qlim"], "alim": c.get("alim", 0), "wlen": c["wlen"],
            "items": [{"k": i["k"], "id": i["id"], "start": i["start"], "hend": i["hend"], "end": i["end"],
-                      "term": i["term"]} for i in c["items"]],
+                      "term": i["term"], "sp": i.get("special") or ""} for i in c["items"]],
            "resps": c["resps"],
            "escs": [{"at": e["at"], "msg": e["msg"], "exc": e["exc"], "dr": e["dr"]} for e in c["escs"]]}
-    evs = [{"ev": e["ev"], "o": {k: e["o"][k] for k in ("w", "d", "closed", "lost", "paused", "idle", "hrun", "hin", "esc", "wp")}}
+    # projections of the ground truth (pure functions of cfg.items and o.d), computed here once per event:
+    # nh = request heads of the clean prefix handed over, ni = complete non-junk items of the aligned prefix
+    hends = [i["hend"] for i in c["items"] if i["hend"] <= c["qlim"]]
+    iends = [i["end"] for i in c["items"] if i["end"] <= cfg["alim"] and i["k"] != "junk"]
+    for e in t["events"]:
+        d = e["o"]["d"]
+        e["o"]["nh"] = sum(1 for h in hends if h <= d)
+        e["o"]["ni"] = sum(1 for x in iends if x <= d)
+    evs = [{"ev": e["ev"], "o": {k: e["o"][k] for k in ("w", "d", "closed", "lost", "paused", "idle", "hrun", "hin", "hin0", "esc", "wp", "bud", "pop", "nh", "ni")}}
            for e in t["events"]]
     return {"cfg": cfg, "src": t["src"], "events": evs}
 
@@ -737,7 +798,19 @@ def probe_code(loop: steploop.StepLoop) -> dict:
     first_ok = any(r["id"] == 1 and r["status"] == 200 for r in resps)
     answered = any(r["status"] == 400 for r in resps)
     x.finish()
-    return {"mp": mp, "gf": answered and first_ok, "pfp": answered and not first_ok}
+    # upgrade request with a body, declined before the body is complete; then another request
+    x = Exec(loop, mode="server", eager=True)
+    p1 = srvkit.render_request(1, upgrade=True, body=1)
+    p2 = srvkit.render_request(2)
+    x.deliver(p1[0])
+    x.settle()
+    x.deliver(p1[1])
+    x.settle()
+    x.deliver(p2[0])
+    x.settle()
+    lur = any(r["id"] == 2 for r in srvkit.split_responses(bytes(x.conn.tr.written)))
+    x.finish()
+    return {"mp": mp, "gf": answered and first_ok, "pfp": answered and not first_ok, "lur": lur}
 
 
 def model_phase(ctx: Ctx) -> None:
@@ -759,6 +832,7 @@ def model_phase(ctx: Ctx) -> None:
         name = f"ServerConn({alpha},{beh},items<={n},cap=2,HW={hw},timers={timers},disc<={disc},wpause<={wp})"
         ok = ctx.expect_model_ok(name, res)
         ctx.log(f"model {name}: {res.distinct} distinct / {res.generated} generated, ok={ok}, {res.wall_s:.0f}s")
+    design = ctx.extra["code_design"]
     # hostile request-targets: the ideal design satisfies everything ...
     n = ctx.pick(2, 3)
     cfg, _ = write_cfg("AlphaPoison", "BehFast", n, disc=1, ideal=True)
@@ -766,26 +840,28 @@ def model_phase(ctx: Ctx) -> None:
     ok = ctx.expect_model_ok(f"ServerConn[ideal](AlphaPoison,BehFast,items<={n})", res)
     ctx.log(f"model[ideal] AlphaPoison: {res.distinct} distinct, ok={ok}, {res.wall_s:.0f}s")
     # ... the code as it is satisfies everything except the named deviations it still has ...
-    design = ctx.extra["code_design"]
-    cfg, _ = write_cfg("AlphaPoison", "BehFast", n, disc=1, ideal=False, design=design,
-                       invs=AS_CODED_INVS)
-    res = run_tlc("ServerConnMC", cfg, workers=16, timeout=ctx.pick(400, 3000), deadlock=False)
-    ok = ctx.expect_model_ok(f"ServerConn[as-coded](AlphaPoison,BehFast,items<={n})", res)
-    ctx.log(f"model[as-coded] AlphaPoison: {res.distinct} distinct, ok={ok}, {res.wall_s:.0f}s")
+    if not design_is_ideal(design):
+        for alpha, k in (("AlphaPoison", n), ("AlphaUpgrade", ctx.pick(2, 3))):
+            cfg, _ = write_cfg(alpha, "BehFast", k, hw=0, disc=1, ideal=False, design=design, invs=AS_CODED_INVS)
+            res = run_tlc("ServerConnMC", cfg, workers=16, timeout=ctx.pick(400, 3000), deadlock=False)
+            ok = ctx.expect_model_ok(f"ServerConn[as-coded]({alpha},BehFast,items<={k})", res)
+            ctx.log(f"model[as-coded] {alpha}: {res.distinct} distinct, ok={ok}, {res.wall_s:.0f}s")
     # ... and TLC exhibits each deviation in the as-coded model
     from engine import tlc as _t
-    for inv, clause, present in (("NoEscapeDR", "NoEscape_PoisonTarget", not design["mp"]),
-                                 ("NoEscapeTask", "NoOrphan_PoisonTarget", not (design["gf"] or design["pfp"]))):
+    for inv, clause, present, alpha, k in (
+            ("NoEscapeDR", "NoEscape_PoisonTarget", not design["mp"], "AlphaPoison", 1),
+            ("NoEscapeTask", "NoOrphan_PoisonTarget", not (design["gf"] or design["pfp"]), "AlphaPoison", 1),
+            ("NoLateUpgrade", "NoOrphan_UpgradeBodyAfterResponse", not design["lur"], "AlphaUpgrade", 2)):
         if not present:
-            ctx.notes.append(f"{clause}: the code under test no longer shows this deviation (probe); as-coded model adjusted")
+            ctx.notes.append(f"{clause}: the code under test does not show this deviation (probe)")
             continue
-        cfg, _ = write_cfg("AlphaPoison", "BehFast", 1, ideal=False, design=design, invs=[inv])
+        cfg, _ = write_cfg(alpha, "BehFast", k, ideal=False, design=design, invs=[inv])
         res = run_tlc("ServerConnMC", cfg, workers=4, timeout=300, deadlock=False)
         _t.require_clean(res, f"ServerConn[as-coded,{inv}]")
-        ctx.add_model(f"ServerConn[as-coded,{inv}](AlphaPoison,items<=1)", res, exhaustive=False)
+        ctx.add_model(f"ServerConn[as-coded,{inv}]({alpha},items<={k})", res, exhaustive=False)
         if res.violated == inv:
             steps = " ".join(a for a, _ in res.trace[1:])
-            kinds = [i["kind"] for i in res.trace[0][1].get("items", [])] if res.trace else []
+            kinds = [i["kind"] + ("+body" if i["body"] else "") for i in res.trace[0][1].get("items", [])] if res.trace else []
             ctx.violation(clause, f"{clause}: {DEVIATIONS[clause]} [model: items={kinds} {steps}]",
                           {"model_trace": [(a, st) for a, st in res.trace]}, "model")
         elif res.violated:
@@ -794,24 +870,33 @@ def model_phase(ctx: Ctx) -> None:
             ctx.notes.append(f"as-coded model no longer violates {inv}: the deviation is gone from the spec?")
 
 
+def design_is_ideal(d: dict) -> bool:
+    return bool(d["mp"] and (d["gf"] or d["pfp"]) and d.get("lur", True))
+
+
 def sim_phase(ctx: Ctx, loop: steploop.StepLoop) -> None:
+    # (alphabet, behaviours, items, HW, timers, disconnects, write pauses, behaviours to replay)
     sims = ctx.pick(
-        [("AlphaPipe", "BehAll", 3, 0, False, 1, 1, True, 150),
-         ("AlphaHostile", "BehFast", 3, 0, False, 1, 0, True, 150),
-         ("AlphaBody", "BehBody", 3, 1, True, 1, 0, True, 150),
-         ("AlphaPoison", "BehFast", 3, 99, False, 1, 0, False, 60)],
-        [("AlphaPipe", "BehAll", 3, 0, False, 1, 1, True, 700),
-         ("AlphaPipe", "BehAll", 4, 1, True, 1, 1, True, 700),
-         ("AlphaHostile", "BehFast", 4, 0, True, 1, 1, True, 700),
-         ("AlphaBody", "BehBody", 3, 1, True, 1, 1, True, 700),
-         ("AlphaBody", "BehBody", 4, 0, False, 1, 0, True, 500),
-         ("AlphaQueue", "BehQueue", 4, 99, False, 1, 1, True, 500),
-         ("AlphaPoison", "BehFast", 3, 0, False, 1, 0, False, 600)])
+        [("AlphaPipe", "BehAll", 3, 0, False, 1, 1, 110),
+         ("AlphaHostile", "BehFast", 3, 0, False, 1, 0, 110),
+         ("AlphaUpgrade", "BehFast", 4, 0, False, 0, 0, 100),
+         ("AlphaBody", "BehBody", 3, 1, True, 1, 0, 90),
+         ("AlphaPoison", "BehFast", 3, 99, False, 1, 0, 40)],
+        [("AlphaPipe", "BehAll", 3, 0, False, 1, 1, 700),
+         ("AlphaPipe", "BehAll", 4, 1, True, 1, 1, 700),
+         ("AlphaHostile", "BehFast", 4, 0, True, 1, 1, 700),
+         ("AlphaUpgrade", "BehFast", 4, 0, False, 1, 0, 600),
+         ("AlphaBody", "BehBody", 3, 1, True, 1, 1, 600),
+         ("AlphaBody", "BehBody", 4, 0, False, 1, 0, 500),
+         ("AlphaQueue", "BehQueue", 4, 99, False, 1, 1, 400),
+         ("AlphaPoison", "BehFast", 3, 0, False, 1, 0, 500)])
+    design = ctx.extra["code_design"]
+    ideal = design_is_ideal(design)
     traces: List[dict] = []
-    for (alpha, beh, n, hw, timers, disc, wp, ideal, num) in sims:
-        invs = None if ideal else AS_CODED_INVS
-        cfg, consts = write_cfg(alpha, beh, n, hw=hw, timers=timers, disc=disc, wp=wp, ideal=ideal, invs=invs,
-                                view=False, design=ctx.extra["code_design"])
+    for (alpha, beh, n, hw, timers, disc, wp, num) in sims:
+        # the model of the code as it is (constants from the probe): the replay must not drift
+        cfg, consts = write_cfg(alpha, beh, n, hw=hw, timers=timers, disc=disc, wp=wp, ideal=False, design=design,
+                                invs=None if ideal else AS_CODED_INVS, view=False)
         behs, res = simulate_behaviours("ServerConnMC", cfg, num=num, depth=ctx.pick(90, 120), seed=ctx.seed,
                                         timeout=ctx.pick(300, 1500))
         if res.violated:
@@ -846,7 +931,7 @@ def run(ctx: Ctx) -> None:
     ctx.log(f"hostile-target handling of the code under test: {ctx.extra['code_design']}")
     model_phase(ctx)
     sim_phase(ctx, loop)
-    n = ctx.pick(1000, 8000)
+    n = ctx.pick(900, 8000)
     batch: List[dict] = []
     for _ in range(n):
         batch.append(random_exec(ctx, loop, ctx.rng))
@@ -868,6 +953,7 @@ def reexecute(loop: steploop.StepLoop, t: dict) -> dict:
     x = Exec(loop, mode=pr["mode"], eager=pr["eager"], read_bufsize=pr["rb"], cap=pr["capset"],
              handler_cancellation=pr.get("hc", False))
     x.items = [dict(i) for i in c["items"]]
+    x.aligned = c.get("alim", 0) > 0
     x.script.plan = {int(k): dict(v) for k, v in c["plan_full"].items()}
     segs = [bytes.fromhex(h) for h in c["segs"]]
     k = 0
@@ -954,6 +1040,18 @@ def selftest(ctx: Ctx) -> int:
     bads.append(("NoEscape", b))
     b = copy.deepcopy(good)                      # 40 heads accepted while nothing is handled and reading never pauses
     b["cfg"]["cap"] = 1
+    bads.append(("QueueBound|Backpressure", b))
+    b = copy.deepcopy(good)                      # the harness budget was exceeded (server answering in a loop)
+    for e in b["events"][5:]:
+        e["o"]["bud"] = True
+    bads.append(("RunawayExecution", b))
+    b = copy.deepcopy(good)                      # aligned segments: 3 entries accepted, none taken off a queue of 2
+    b["cfg"]["cap"] = 2
+    b["cfg"]["qlim"] = 0
+    b["cfg"]["alim"] = b["cfg"]["items"][-1]["end"]
+    for e in b["events"]:
+        e["o"]["pop"] = 0
+        e["o"]["paused"] = False
     bads.append(("QueueBound|Backpressure", b))
     vs, _ = validate_batch("ServerConnTrace", "ServerConnTrace.cfg", [slim(good)] + [slim(t) for _, t in bads])
     print("good trace:", vs[0].ok, vs[0].clause)
